@@ -1,5 +1,17 @@
 import StunVerif.Props.C17
+import StunVerif.Props.SrcFnParse
 #print axioms StunVerif.C17.prefix_truncated
 #print axioms StunVerif.C17.header_iff
 #print axioms StunVerif.C17.header_iff_not_nonstun
 #print axioms StunVerif.C17.header_agrees
+#print axioms StunVerif.SrcFnParse.ArrInv.init
+#print axioms StunVerif.SrcFnParse.len_le_three
+#print axioms StunVerif.SrcFnParse.ending_ne_zero
+#print axioms StunVerif.SrcFnParse.ArrInv.contains_eq
+#print axioms StunVerif.SrcFnParse.ArrInv.push
+#print axioms StunVerif.SrcFnParse.setLen_mod
+#print axioms StunVerif.SrcFnParse.endingTypes_eq
+#print axioms StunVerif.SrcFnParse.fp_mem
+#print axioms StunVerif.SrcFnParse.walk_agree
+#print axioms StunVerif.SrcFnParse.src_msgFromBytes
+#print axioms StunVerif.SrcFnParse.src_accepts_iff
